@@ -1219,6 +1219,12 @@ func (lhs *Path) Compare(rhs *Path) int {
 	return int(m2) - int(m1)
 }
 
+// setNLRI stores the NLRI together with the text destinations are keyed by.
+func (o *originInfo) setNLRI(n bgp.NLRI) {
+	o.nlri = n
+	o.nlriString = n.String()
+}
+
 func (v *Vrf) ToGlobalPath(path *Path) error {
 	nlri := path.GetNlri()
 	nh := path.GetNexthop()
@@ -1263,6 +1269,9 @@ func (v *Vrf) ToGlobalPath(path *Path) error {
 	default:
 		return fmt.Errorf("unsupported route family for vrf: %s", rf)
 	}
+	// the NLRI has changed (it carries the VRF's RD now): so has the text the
+	// route is keyed by
+	path.OriginInfo().setNLRI(path.OriginInfo().nlri)
 	path.SetExtCommunities(v.ExportRt, false)
 	// FIXME: we should not need to keep mp reach in Path.
 	path.delPathAttr(bgp.BGP_ATTR_TYPE_NEXT_HOP)
